@@ -1,3 +1,4 @@
+import os
 """Per-property check definitions (what to build, what to run, how many cases per tier)."""
 import re
 
@@ -143,12 +144,15 @@ def c13(ctx, spec):
             if b.get('may_fail'): ctx.notes.append('%s does not compile on this tree (complex<float> gemm: beta comparison in core.hpp): not exercised' % b['name'])
             continue
         n = int(subprocess.run([bb['bin'], '--list'], stdout=subprocess.PIPE, env=ctx.run_env(bb)).stdout.decode().strip() or 0)
-        if b['cfg'] == 'vg': ctx.run_sharded(b['name'], min(n, 1500), shards=8, timeout=3000)
-        else: ctx.run_sharded(b['name'], n, shards=(12 if n > 100000 else 4))
+        m = re.search(r'_g(\d)_t(\d)$', b['name']); base = os.path.join(os.path.dirname(os.path.abspath(__file__)), 'baselines', 'c13_accept_g%s_t%s.txt' % (m.group(1), m.group(2)))
+        acc = ['--accept-baseline', base] if os.path.exists(base) else []   # per-case acceptance on the pinned tree (committed; see tools/c13_accept.py)
+        if b['cfg'] == 'vg': ctx.run_sharded(b['name'], min(n, 1500), args=acc, shards=8, timeout=3000)
+        else: ctx.run_sharded(b['name'], n, args=acc, shards=(12 if n > 100000 else 4))
     # a worker killed by heap corruption / a signal inside BLAS is an out-of-bounds write that did not stay inside the canaries
     for v in ctx.violations:
         if re.search(r':(abort|segv|asan:[\w\-]+|exit\(\w+\)|memcheck:[\w\-]+)$', v['key']): v['key'] = re.sub(r':(abort|segv|asan:[\w\-]+|exit\(\w+\)|memcheck:[\w\-]+)$', ':oob-write', v['key'])
-    ctx.extra['outcomes'] = {k: v for k, v in ctx.counters.items() if k in ('computed-ok', 'rejected', 'rejected:assertion', 'rejected:exception')}
+    ctx.extra['outcomes'] = {k: v for k, v in ctx.counters.items() if k in ('computed-ok', 'rejected', 'rejected:assertion', 'rejected:exception', 'accept-baseline-compared', 'no-longer-accepted')}
+    if ctx.counters.get('accept-baseline-stale'): ctx.inconclusive.append('baselines/c13_accept_*.txt do not match the case enumeration of harness/c13_blas.cpp: regenerate with tools/c13_accept.py on the unchanged tree')
     ctx.extra['not_compilable_on_pinned_tree'] = ['blas::asum (result type deduced as int / no matching core::asum)', 'blas::iamax in assertion-enabled builds (assert(!offset(x)) names an inaccessible base)', 'blas::operators::operator^ (swap of two vectors)', 'y += a*x / y -= a*x with a view on the left (the operator returns the view by value)', '(a*A) % x while operators::operator% is visible', 'complex<float> gemm (beta comparison in core.hpp) if the TU fails to build']
 
 # ---------------------------------------------------------------------------------------------- C15
